@@ -60,6 +60,28 @@ CHECKS = {
         note=("token-level half decided here; character-level opacity of the region rules is C14's model; plain scripts = ScriptGen "
               "with constructs caseexpr, parensemi, createplain, txbegin"),
         technique='TLA+ lock-step refinement check (TLC) + TLC-generated scripts replayed + TLC trace validation'),
+    'C06': dict(
+        category='model_checking',
+        text=("Options.tla transcribes validate_options/build_filter_stack; TLC enumerates all 6144 layout option states, checks that "
+              "they yield layout stages only and in the right order, and every state's predicted stage list is compared with the real "
+              "filter stack. SqlGen.tla (derivation machine of the verification grammar) generates programs that are spelled with "
+              "comments, hints and line breaks in the gaps; each format() run is recorded stage by stage (harness-side wrappers) and "
+              "TLC steps TraceFormat.tla through it: every layout stage must leave the significant-token sequence unchanged, the "
+              "re-lexed output must carry exactly the input's significant tokens, statement count unchanged."),
+        design_ref='DESIGN.md §5 C06',
+        note=("programs x option states are sampled (TLC -simulate derivations x random option states), not the full product; one "
+              "recorded finding (serialiser rewrites line ends inside multi-line tokens) is a dedicated clause of the trace spec"),
+        technique='TLA+ option/filter-stack model (TLC exhaustive) + TLA+ grammar-generated programs + TLC trace validation per stage'),
+    'C08': dict(
+        category='model_checking',
+        text=("TLC computes, per recorded format() run, the token sequence the targeted filters must produce (TraceFormat.tla: "
+              "PreExpected for keyword_case/identifier_case/truncate_strings incl. the doubled-quote rule, DropComments for "
+              "strip_comments with hints kept) and compares it with the statements' leaves after each stage and with the re-lexed output "
+              "(nothing fused or split); idempotence is checked on the token level. Option states come from Options.tla, programs from "
+              "SqlGen.tla with comments/hints in every kind of gap."),
+        design_ref='DESIGN.md §5 C08',
+        note='one recorded finding (comment removal at a group boundary glues neighbours) is a dedicated, exactly stated clause',
+        technique='TLA+ expected-effect model of the targeted filters evaluated by TLC on recorded runs; TLA+-generated programs/options'),
     'C09': dict(
         category='model_checking',
         text=("TLC checks the transcription of _group_matching with its real index arithmetic (GroupMatching.tla) against the textbook "
@@ -70,6 +92,15 @@ CHECKS = {
         design_ref='DESIGN.md §5 C09',
         note='one recorded finding (CASE/BEGIN shared END) matched by clause + model prediction + trigger tags',
         technique='TLA+ model of the matcher (TLC exhaustive) + TLC-generated sequences replayed + TLC trace validation against MatchRef'),
+    'C10': dict(
+        category='model_checking',
+        text=("The normal forms are TLA+ predicates over the re-lexed output (TraceFormat.tla: NF_strip, NF_ops, NF_reindent_kw, "
+              "NF_no_trailing_blank) and the fixed-point clause format(format(x)) = format(x); TLC evaluates them on every recorded run "
+              "of SqlGen programs x option states of Options.tla (strip_whitespace, use_space_around_operators, reindent with every "
+              "sub-option)."),
+        design_ref='DESIGN.md §5 C10',
+        note='canonical single-blank multi-word keywords (respellings are C11); programs x options sampled',
+        technique='TLA+ normal-form predicates evaluated by TLC on recorded format() runs; TLA+-generated programs/options'),
     'C17': dict(
         category='model_checking',
         text=("Same lock-step composition with the procedural constructs of ScriptGen.tla (CREATE header, DECLARE, nested BEGIN, IF, "
